@@ -39,6 +39,10 @@ type fileInfo struct {
 	f     *ast.File
 	edits []edit
 	sites int
+	// clockRewrites: calls of package time's clock functions redirected to verifsim; timeName is
+	// the name package time is imported under (kept in use by a blank declaration at the end)
+	clockRewrites int
+	timeName      string
 }
 
 func die(format string, a ...any) {
@@ -94,6 +98,7 @@ func main() {
 	var siteTable []string
 	mapRanges := 0
 	blockingCalls := 0
+	clockCalls := 0
 	for _, fi := range files {
 		fi := fi
 		var funcStack []string
@@ -146,6 +151,7 @@ func main() {
 					walkList(x.Body)
 				case *ast.CallExpr:
 					rewriteBlockingCall(fi, x, info, offOf, &blockingCalls)
+					rewriteClockCall(fi, x, info, offOf, &clockCalls)
 				case *ast.RangeStmt:
 					tv, ok := info.Types[x.X]
 					if !ok || tv.Type == nil {
@@ -172,6 +178,9 @@ func main() {
 		tokFile := fset.File(fi.f.Pos())
 		nameEnd := tokFile.Offset(fi.f.Name.End())
 		fi.edits = append(fi.edits, edit{off: nameEnd, end: nameEnd, text: `; import verifsim "github.com/go-ap/activitypub/verifsim"`, prio: 0})
+		if fi.clockRewrites > 0 {
+			fi.edits = append(fi.edits, edit{off: len(fi.src), end: len(fi.src), text: "\nvar _ " + fi.timeName + ".Duration // (keeps the import in use after the clock calls were redirected)\n", prio: 9})
+		}
 		sort.SliceStable(fi.edits, func(i, j int) bool {
 			if fi.edits[i].off != fi.edits[j].off {
 				return fi.edits[i].off < fi.edits[j].off
@@ -229,7 +238,7 @@ func main() {
 			die("%v", err)
 		}
 	}
-	fmt.Printf("{\"sites\":%d,\"map_ranges\":%d,\"files\":%d,\"blocking_calls\":%d}\n", len(siteTable), mapRanges, len(files), blockingCalls)
+	fmt.Printf("{\"sites\":%d,\"map_ranges\":%d,\"files\":%d,\"blocking_calls\":%d,\"clock_calls\":%d}\n", len(siteTable), mapRanges, len(files), blockingCalls, clockCalls)
 }
 
 func recvName(e ast.Expr) string {
@@ -348,6 +357,34 @@ func rewriteBlockingCall(fi *fileInfo, call *ast.CallExpr, info *types.Info, off
 	}
 }
 
+// rewriteClockCall puts the library's clock behind the simulator: time.Now(),
+// time.Since(t), time.Until(t) and time.Sleep(d) become verifsim.Now() etc.,
+// which read (or advance) the simulated clock when the simulator has set one.
+// The pinned tree never reads a clock; a change that starts to (a cache with an
+// expiry, a rate limit) stays replayable, and the simulator can let time pass
+// or jump between and inside operations. Timers and tickers are left alone.
+func rewriteClockCall(fi *fileInfo, call *ast.CallExpr, info *types.Info, offOf func(token.Pos) int, n *int) {
+	sel, ok := call.Fun.(*ast.SelectorExpr)
+	if !ok {
+		return
+	}
+	id, ok := sel.X.(*ast.Ident)
+	if !ok {
+		return
+	}
+	pn, ok := info.Uses[id].(*types.PkgName)
+	if !ok || pn.Imported().Path() != "time" {
+		return
+	}
+	switch sel.Sel.Name {
+	case "Now", "Since", "Until", "Sleep":
+		*n++
+		fi.clockRewrites++
+		fi.timeName = id.Name
+		fi.edits = append(fi.edits, edit{off: offOf(sel.Pos()), end: offOf(sel.End()), prio: 5, text: "verifsim." + sel.Sel.Name})
+	}
+}
+
 func pureOperand(e ast.Expr) bool {
 	switch x := e.(type) {
 	case *ast.Ident:
@@ -372,10 +409,48 @@ import (
 	"runtime"
 	"sort"
 	"sync"
+	"time"
 )
 
 // Hook is set by the simulator before a run starts and cleared after it.
 var Hook func(uint32)
+
+// ClockHook is the simulated clock (nil: the real one). Every time.Now /
+// time.Since / time.Until of the library reads it, time.Sleep advances it.
+var (
+	ClockHook func() time.Time
+	SleepHook func(time.Duration)
+	// ClockReads counts clock reads (plain counter, bumped from norace code: approximate under
+	// real parallelism, exact otherwise; the simulator only asks whether it moved)
+	ClockReads int64
+)
+
+//go:norace
+func bumpClockReads() { ClockReads++ }
+
+// Now is time.Now under the simulator's clock.
+func Now() time.Time {
+	bumpClockReads()
+	if h := ClockHook; h != nil {
+		return h()
+	}
+	return time.Now()
+}
+
+// Since is time.Since under the simulator's clock.
+func Since(t time.Time) time.Duration { return Now().Sub(t) }
+
+// Until is time.Until under the simulator's clock.
+func Until(t time.Time) time.Duration { return t.Sub(Now()) }
+
+// Sleep is time.Sleep under the simulator's clock: simulated time passes, nobody waits.
+func Sleep(d time.Duration) {
+	if h := SleepHook; h != nil {
+		h(d)
+		return
+	}
+	time.Sleep(d)
+}
 
 // BlockedHook is called by a task that cannot take a lock (or must wait for a
 // sync.Once another task is running): the scheduler hands over to another task.
